@@ -573,6 +573,9 @@ func c11Derive(c hx.Case) hx.Case {
 // ---------------------------------------------------------------- real code
 
 func runC11(c hx.Case) any {
+	if c11IsHistory(c) {
+		return runC11History(c)
+	}
 	g, _ := c["g"].(map[string]any)
 	files := jlist(g["files"])
 	bodies := map[string][]byte{}
@@ -644,6 +647,11 @@ func runC11(c hx.Case) any {
 
 // c11SpecHolds: the property on an observed read sequence, from the spec data computed by the Lean driver.
 func c11SpecHolds(log []string, spec map[string]any) (bool, string) {
+	return c11SpecHoldsKnown(log, spec, nil)
+}
+
+// c11SpecHoldsKnown: known = locations of the documents the same loader loaded in earlier loads
+func c11SpecHoldsKnown(log []string, spec map[string]any, known []string) (bool, string) {
 	root, hasRoot := spec["root"].(string)
 	if !jbool(spec, "allowed") {
 		for _, u := range log {
@@ -668,6 +676,9 @@ func c11SpecHolds(log []string, spec map[string]any) (bool, string) {
 		edges[u] = append(edges[u], edge{d, !ok})
 	}
 	loaded := map[string]bool{}
+	for _, k := range known {
+		loaded[k] = true
+	}
 	for _, u := range log {
 		ok := hasRoot && u == root
 		for _, e := range edges[u] {
@@ -700,6 +711,9 @@ func cmpC11(c hx.Case, impl any, reply map[string]any) hx.Verdict {
 	}
 	if _, p := im["hang"]; p {
 		return hx.Verdict{IM: false, IS: false, Detail: "loader did not return"}
+	}
+	if c11IsHistory(c) {
+		return cmpC11History(c, im, model, spec)
 	}
 	v := hx.Verdict{IM: true, IS: true}
 	ilog, mlog := toStrs(im["log"]), toStrs(model["log"])
@@ -1378,6 +1392,7 @@ func genC11(ctx *hx.Ctx, emit func(hx.Case)) {
 	c11GenChains(ctx, emit)
 	c11GenRootChains(ctx, emit)
 	c11GenRereads(ctx, emit)
+	c11GenHistories(ctx, emit)
 	c11GenOtherKind(ctx, emit)
 	// random stream
 	n := 2200
@@ -1386,6 +1401,11 @@ func genC11(ctx *hx.Ctx, emit func(hx.Case)) {
 	}
 	for i := 0; i < n; i++ {
 		emit(c11RandomCase(ctx.Rng))
+		if i%5 == 0 {
+			if h := c11RandomHistory(ctx.Rng); h != nil {
+				emit(h)
+			}
+		}
 	}
 }
 
@@ -1575,6 +1595,9 @@ func c11GenOtherKind(ctx *hx.Ctx, emit func(hx.Case)) {
 // ---------------------------------------------------------------- shrinking
 
 func shrinkC11(c hx.Case) []hx.Case {
+	if c11IsHistory(c) {
+		return shrinkC11History(c)
+	}
 	var out []hx.Case
 	g0, _ := c["g"].(map[string]any)
 	mk := func(mut func(g map[string]any) bool) {
